@@ -38,6 +38,7 @@ RULE += (' Also: falsy Stop(Async)Iteration subclasses leaving the block.')
 RULE += (' Also: managers whose own single argument is a coroutine function (a hook).')
 RULE += (" Also: decorated callables that are plain wrappers handing back the body's coroutine.")
 RULE += (' Also: set-up failures that are a RuntimeError raised from a StopAsyncIteration, or a leaked StopAsyncIteration (message and cause compared).')
+RULE += (' Also: generators that raise the cause of the exception they were given.')
 ASSUMPTIONS = ["contextlib.asynccontextmanager of the running interpreter is the reference",
                "__cause__/__context__ chains and messages are not compared"]
 EXHAUSTIVE = {"quick": True, "thorough": True}
@@ -53,7 +54,7 @@ class New(Exception):
 PRE = ["raise", "noyield", "yield", "raise_runtime_from_sai", "leak_sai"]
 VALUE = {0: "V", 1: None, 2: 0}  # what the generator yields to ``as``: also None / falsy
 HANDLER = ["none", "finally", "swallow", "reraise", "raise_new", "raise_new_from_none", "raise_same_type", "return",
-           "raise_copy", "raise_copy_from_none", "raise_runtime_chain", "raise_runtime_sub_from_exc",
+           "raise_copy", "raise_copy_from_none", "raise_runtime_chain", "raise_runtime_sub_from_exc", "raise_cause",
            "raise_notimplemented_from_exc",
            "yield_again", "raise_sai", "raise_si",
            # the type and chaining of what the generator raises matters to the classification in __aexit__
@@ -274,6 +275,11 @@ def make(pre, handler, after, log, susp):
                     raise New("h") from None
                 elif handler == "raise_same_type":
                     raise type(e)("again")
+                elif handler == "raise_cause":
+                    # the generator unwraps what it is given: it raises the CAUSE of the block's exception (the block's
+                    # exception itself if it has none) - for a block that failed with "RuntimeError from StopIteration" that
+                    # is a Stop(Async)Iteration escaping the generator, which the generator protocol promotes again
+                    raise (e.__cause__ or e)
                 elif handler == "raise_runtime_sub_from_exc":
                     # a proper SUBCLASS of RuntimeError raised from the block's exception (NotImplementedError,
                     # RecursionError, a user class): classified like any RuntimeError
